@@ -94,6 +94,29 @@ impl<L: Language> Matcher<L> for RangeMatcher<L> {
   }
 }
 
+/// Verification hooks (cargo feature `verif-hooks`).
+#[cfg(feature = "verif-hooks")]
+#[doc(hidden)]
+pub mod verif_hooks {
+  use super::*;
+  /// a `RangeMatcher` from line/column numbers (no YAML)
+  pub fn range_matcher_from_parts<L: Language>(
+    start: (usize, usize),
+    end: (usize, usize),
+  ) -> RangeMatcher<L> {
+    RangeMatcher::new(
+      SerializablePosition {
+        line: start.0,
+        column: start.1,
+      },
+      SerializablePosition {
+        line: end.0,
+        column: end.1,
+      },
+    )
+  }
+}
+
 #[cfg(test)]
 mod test {
   use super::*;
